@@ -55,6 +55,19 @@ CLAIMED = {
             "emitted skeleton compared with the declared resources holds for every parameter value; size-bounded in configuration.",
             "Trusts abstractify()/resource_rep equality as the notion of resource type; resource parameters from a float twin.",
             "DESIGN.md 4 C11", "E2"),
+    "C16": ("proof",
+            "sidecar contracts (pre/post, allowed exceptions, loop invariants with decreases) on the real methods of "
+            "rings.py and norm_solver._solve_diophantine; VCs generated from the function ASTs on every run (all paths), "
+            "discharged by z3 (NIA); ring laws as lemmas over independent spec functions; counter-models replayed natively",
+            "Every ring operator of ZSqrtTwo/ZOmega (add, sub, rsub, mul, neg, eq, pow with loop invariant, exact division, "
+            "floor division, conj, adj2, norm, abs, sqrt, conversions, normalize) is proved equal to an independently "
+            "written spec in Z[x]/(x^2-2) resp. Z[w]/(w^4+1) for all (unbounded) integers and operand types; ring laws and "
+            "norm multiplicativity are proved over the spec; every value returned by _solve_diophantine satisfies "
+            "conj(t)*t == xi (callees that only produce candidates are havocked). DyadicMatrix/SO3Matrix, __mod__/_gcd, "
+            "_sqrt_modulo_p and the primality test are NOT covered yet (listed unverified).",
+            "Trusts the pyvc encoder (Python subset semantics), z3; python ints are mathematical integers (exact); integral "
+            "floats as reals; termination only where a decreases clause is given.",
+            "DESIGN.md 4 C16", "E1"),
 }
 
 
